@@ -64,7 +64,8 @@ example : let L : Layout := ⟨14, true, none, true, .le⟩
 Take any valid layout (all trailer combinations, TIF off / normal / byte-reversed), any list of non-empty logical
 records, and the LIS-79 encoding `encode L rs` of it. For EVERY history of operations
 `read n | skip n | read rest (n<0) | skip rest | skipToNextLr | seekLr(position of record i) | tellLr`
-the replies of the reader model (`PhysRecRead` through `File.FileRead`, constructed on the file) are exactly the
+the replies of the reader model (`PhysRecRead` through `File.FileRead`, constructed on the file with `pad_modulo = 0` and
+any `keepGoing` — `Cfg.plain` is `FileRead(f)`) are exactly the
 replies of the abstract semantics on `(records, cursor = (record, offset))`: bytes are the bytes of the records,
 counts are the numbers of bytes left, positions are the sums of the record sizes, `None` comes once at the end of a
 record, operations at end of file raise the EOF error — and no other exception ever occurs.
@@ -72,22 +73,22 @@ Hypotheses: records non-empty; a TIF file has at least one record; byte-reversed
 words 0x100 and 0x10000 whose byte orders are indistinguishable; the file is shorter than 2^32 − 24 bytes.
 The proof is `init_rel` (invariant holds initially), `step_sim` (every operation preserves the invariant `Rel` and
 answers like the abstract step) and induction over the history (`run_sim`). -/
-theorem read_refines (L : Layout) (rs : List Bytes) (ops : List Op)
+theorem read_refines (cfg : Cfg) [Pad0 cfg] (L : Layout) (rs : List Bytes) (ops : List Op)
     (hL : L.Valid) (hr : ∀ r ∈ rs, r ≠ []) (hne : L.tif ≠ .off → rs ≠ [])
     (hbe : L.tif = .be → firstNext L rs ≠ 0x100 ∧ firstNext L rs ≠ 0x10000)
     (hsz : fileSize L rs + 24 < 4294967296) (hops : HistOK rs ops) :
-    run (encode L rs) (some (Rd.new (encode L rs))) (ops.map (concOp L rs)) = absRun L rs AState.init ops := by
+    run cfg (encode L rs) (some (Rd.new (encode L rs))) (ops.map (concOp L rs)) = absRun L rs AState.init ops := by
   have g : Good L rs := ⟨hL, hr, by unfold fileSize at hsz; omega⟩
-  exact run_sim g ops _ _ (init_rel g hne hbe) (histOK_opOK hops)
+  exact run_sim (cfg := cfg) g ops _ _ (init_rel g hne hbe) (histOK_opOK hops)
 
 /-- **seek_any_order.** After ANY history (any interleaving of reads, skips, seeks in any order), seeking to the reported
 start of record `i`, reading it whole and asking for the position answers: that position, exactly the bytes of record
 `i`, that position. -/
-theorem seek_any_order (L : Layout) (rs : List Bytes) (ops : List Op) (i : Nat)
+theorem seek_any_order (cfg : Cfg) [Pad0 cfg] (L : Layout) (rs : List Bytes) (ops : List Op) (i : Nat)
     (hL : L.Valid) (hr : ∀ r ∈ rs, r ≠ []) (hne : L.tif ≠ .off → rs ≠ [])
     (hbe : L.tif = .be → firstNext L rs ≠ 0x100 ∧ firstNext L rs ≠ 0x10000)
     (hsz : fileSize L rs + 24 < 4294967296) (hops : HistOK rs ops) (hi : i < rs.length) :
-    (run (encode L rs) (some (Rd.new (encode L rs)))
+    (run cfg (encode L rs) (some (Rd.new (encode L rs)))
         ((ops ++ ([Op.seek i, Op.read (-1), Op.tell] : List Op)).map (concOp L rs))).drop ops.length
       = [.pos (tellOf L rs i), .bytes (recAt rs i), .pos (tellOf L rs i)] := by
   have hops' : HistOK rs (ops ++ ([Op.seek i, Op.read (-1), Op.tell] : List Op)) := by
@@ -97,7 +98,7 @@ theorem seek_any_order (L : Layout) (rs : List Bytes) (ops : List Op) (i : Nat)
     · subst hj
       simp only [List.mem_cons, Op.seek.injEq, reduceCtorEq, List.mem_nil_iff, or_false] at h
       omega
-  rw [read_refines L rs _ hL hr hne hbe hsz hops', absRun_append]
+  rw [read_refines cfg L rs _ hL hr hne hbe hsz hops', absRun_append]
   have hl := absRun_length L rs ops AState.init
   rw [← hl, List.drop_left]
   exact abs_seek_read L rs _ i hi (hr _ (by unfold recAt; simp [hi]))
@@ -126,7 +127,7 @@ on the real code by the harness.) -/
 example : let L : Layout := ⟨244, false, none, false, .be⟩
     let rs : List Bytes := [List.replicate 240 65, [1, 2]]
     firstNext L rs = 0x100 ∧
-    run (encode L rs) (some (Rd.new (encode L rs))) ([.read (-1), .read (-1)].map (concOp L rs))
+    run Cfg.plain (encode L rs) (some (Rd.new (encode L rs))) ([.read (-1), .read (-1)].map (concOp L rs))
       ≠ absRun L rs AState.init [.read (-1), .read (-1)] := by
   decide +kernel
 
